@@ -257,6 +257,17 @@ def case_pop(B, cfg):
     rows = _delta_rows(per_dim, units, n_ids, covs)
     dens = _pop_density(B, m, free_theta, covs, rows)
     if not B.symbolic:
+        # point-mass dimensions: every draw is the pooled value
+        Sf = np.asarray(S, dtype=float)
+        for i in range(ns):
+            for d, k in enumerate(kinds):
+                if k == 'pooled':
+                    want = float(mus_or_pooled(per_dim, units, d, covs))
+                    bad = [r for r in range(len(Sf))
+                           if Sf[r][d] != want]
+                    B.holds('dim %d (%s): sample = pooled value' % (d, k),
+                            not bad if i == 0 else
+                            bool(Sf[min(i, len(Sf) - 1)][d] == want))
         return _pop_concrete(B, dens, S, kinds, ns, n_ids)
     seen = set()
     for i in range(ns):
